@@ -75,7 +75,8 @@ def bufOp (v : Buf) (w : List String) : St × String :=
     | some n => viewOp v false (v.step (.advance n))
     | none => (.buf v false, "bad-op")
   | ["clear"] => viewOp v false (v.step .clear)
-  | ["extend", h] =>
+  | [cmd, h] =>
+    if cmd ≠ "extend" ∧ cmd ≠ "wwrite" then (.buf v false, "bad-op") else
     match parseHex h with
     | some d =>
       match v.extend d with
@@ -90,13 +91,18 @@ def bufOp (v : Buf) (w : List String) : St × String :=
     | .error f => (.none, showFault f)
   | _ => (.buf v false, "bad-op")
 
+def readerProgress : Buf → Nat
+  | .slice _ b _ => b
+  | _ => 0
+
 def readerOp (v : Buf) (w : List String) : St × String :=
   match w with
   | ["read", n] =>
     match n.toNat? with
     | some n =>
       match readerRead v n with
-      | .ok (d, v') => (.buf v' true, s!"read:{hexOf d} " ++ showBuf v')
+      | .ok (d, v') =>
+        (.buf v' true, s!"read:{hexOf d} p={readerProgress v'} i={showRange v'.asInit} r={showRoot v'.getRoot}")
       | .error f => (.buf v true, showFault f)
     | none => (.buf v true, "bad-op")
   | ["remaining"] => (.buf v false, showBuf v)
@@ -116,10 +122,31 @@ def parseRootSpec (k len h : String) : Option Root :=
   | some k, some len, some mem => mkRoot k len mem
   | _, _, _ => none
 
+/-- `sibling hcap tcap d1 d2`: two `Writer::write`s through `Uninit` over the head of one allocation of
+`hcap + tcap` bytes; the model root is the *physical* allocation (so that a copy past the head's capacity
+is visible instead of being refused), the preconditions keep the real `reserve` a no-op. -/
+def siblingDemo (hcap tcap : Nat) (d1 d2 : Bytes) : String :=
+  if hcap = 0 ∨ d1.length + d2.length > hcap ∨ 2 * d1.length + d2.length > hcap + tcap ∨ hcap + tcap > 64 then "bad-op"
+  else
+    let r : Root := ⟨.bytesmut, 0, List.replicate (hcap + tcap) 0xAA⟩
+    match (Buf.root r).mkUninit with
+    | .error f => showFault f
+    | .ok u =>
+      match u.extend d1 with
+      | .done u1 =>
+        match u1.extend d2 with
+        | .done u2 => "root " ++ showRoot u2.getRoot
+        | _ => "bad-op"
+      | _ => "bad-op"
+
 def step (st : St) (line : String) : St × String :=
   if line.startsWith "#case" then (.none, line.trimAscii.toString) else
   let w := words line
   match w with
+  | ["sibling", hc, tc, h1, h2] =>
+    match hc.toNat?, tc.toNat?, parseHex h1, parseHex h2 with
+    | some hc, some tc, some d1, some d2 => (st, siblingDemo hc tc d1 d2)
+    | _, _, _, _ => (st, "bad-op")
   | ["root", k, len, h] =>
     match parseRootSpec k len h with
     | some r => (.buf (.root r) false, showBuf (.root r))
@@ -128,8 +155,9 @@ def step (st : St) (line : String) : St × String :=
     match st with
     | .none => (.none, "dead")
     | .buf v rd =>
-      if w = ["end"] then (.none, "root " ++ showRoot v.getRoot)
-      else if rd then readerOp v w else bufOp v w
+      if rd then readerOp v w
+      else if w = ["end"] then (.none, "root " ++ showRoot v.getRoot)
+      else bufOp v w
 
 end C10
 
